@@ -543,4 +543,52 @@ theorem tracked_then_edited_wellformed (pr : Params Rat α κ) (peaks : List (Li
 example : runProgram (1/2) [.interpolate [], .split 0 2 1, .merge 0 1 1 0, .filter 2 1]
     [[(0, 1), (2, 2), (5, 0)], [(1, 3)]] = [[(2, 2), (3, 4/3), (4, 2/3), (5, 0)]] := by decide +kernel
 
+
+/-! ## Centroid refinement (`refine_peak_based_on_moment`, no bias correction): positions inside the image -/
+
+/-- **The clamps**: whatever the image and the starting pixels, every point ends the pixel walk on a pixel of
+    the image (`0 ≤ c < n`). -/
+theorem refine_pixels_inside (eps : Rat) (cols : List (List Int)) (h : Nat) (n : Int) (hn : 1 ≤ n) (fuel : Nat)
+    (pts pts' : List (Int × Nat)) (hr : refineLoop eps cols h n fuel pts = some pts') :
+    ∀ p ∈ pts', 0 ≤ p.1 ∧ p.1 < n := refineLoop_range eps cols h n hn fuel pts pts' hr
+
+/-- **Refined positions lie inside the image**: on an image of non-negative photon counts, for points that start
+    on pixels of the image, every refined coordinate `c + offset` is within half a pixel of a pixel `c` of the
+    image — hence in `[−½, n − ½]` — the reported amplitude is the window sum `m0` around that pixel, and the
+    scan line of every point is unchanged. (At the first and last pixel the zero padding makes the offset point
+    inwards, so the clamps are never what stops the walk.) -/
+theorem refine_positions_inside (eps : Rat) (heps : 0 < eps) (cols : List (List Int)) (h : Nat) (n : Int) (hn : 1 ≤ n)
+    (hi : ImageOK cols n) (pts : List (Int × Nat)) (hin : ∀ p ∈ pts, 0 ≤ p.1 ∧ p.1 < n)
+    (out : List (Rat × Nat × Int)) (hr : refineMoment eps cols h n pts = .ok out) :
+    ∀ q ∈ out, (-(1/2 : Rat) ≤ q.1 ∧ q.1 ≤ (n : Rat) - 1/2) ∧
+      ∃ c : Int, 0 ≤ c ∧ c < n ∧ (c : Rat) - 1/2 ≤ q.1 ∧ q.1 ≤ (c : Rat) + 1/2 ∧
+        q.2.2 = m0At (cols.getD q.2.1 []) h c := by
+  unfold refineMoment at hr
+  split at hr
+  · cases hr
+  · split at hr
+    · cases hr
+    · rename_i ps hps
+      injection hr with hr
+      subst hr
+      intro q hq
+      obtain ⟨p, hp, rfl⟩ := List.mem_map.1 hq
+      obtain ⟨⟨h0, h1⟩, h2, h3⟩ := refineLoop_settled eps heps cols h n hn hi 100 pts ps hin hps p hp
+      have h0' : (0 : Rat) ≤ (p.1 : Rat) := by exact_mod_cast h0
+      have h1' : (p.1 : Rat) ≤ (n : Rat) - 1 := by
+        have : p.1 ≤ n - 1 := by omega
+        exact_mod_cast this
+      refine ⟨⟨by simp only; linarith, by simp only; linarith⟩, p.1, h0, h1, by simp only; linarith, by simp only; linarith, rfl⟩
+
+-- non-vacuity: a 5-pixel, 2-line image; two points that walk to the bright pixels
+example : ImageOK [[0, 1, 9, 1, 0], [0, 0, 2, 9, 1]] 5 := by
+  intro col hcol
+  simp only [List.mem_cons, List.not_mem_nil, or_false] at hcol
+  rcases hcol with rfl | rfl <;> exact ⟨by decide, by decide⟩
+example : refineMoment (1/10000000) [[0, 1, 9, 1, 0], [0, 0, 2, 9, 1]] 1 5 [(0, 0), (4, 1)]
+    = .ok [(2, 0, 11), (3 + (-10000000 : Rat) / 120000001, 1, 12)] := by decide +kernel
+-- the hypothesis on the image is needed: with a negative pixel the walk is stopped by the clamp and the refined
+-- coordinate leaves the image
+example : refineMoment (1/10) [[5, -4, 0]] 1 3 [(0, 0)] = .ok [((-40 : Rat) / 11, 0, 1)] := by decide +kernel
+
 end Verif.C08
